@@ -1,6 +1,6 @@
 """C19: run the command-line tools built from /repo on generated input files and
 compare their output with brute force (fractions.Fraction, exact)."""
-import json, os, random, subprocess, shutil, time
+import json, os, random, re, subprocess, shutil, time
 from concurrent.futures import ThreadPoolExecutor
 from fractions import Fraction
 import ddjson
@@ -142,12 +142,17 @@ def case_wmc(bindir, work, seed, i):
     nontrivial = 0 < count < (1 << n)
     if rc != 0:
         return [("cli.wmc.crash", "weighted_model_count failed on an in-domain input", dict(info, rc=rc, stderr=err[-600:]))], nontrivial, info
+    # the two counts are located by the words "unweighted" / "weighted", not by the exact label text
     got_c = got_w = None
     for line in out.splitlines():
-        if line.startswith("unweighted model count:"):
-            got_c = line.split(":", 1)[1].strip()
-        elif line.startswith("weighted model count:"):
-            got_w = line.split(":", 1)[1].strip()
+        low = line.lower()
+        nums = re.findall(r"-?[0-9]+(?:\.[0-9]+)?(?:[eE][-+]?[0-9]+)?", line.split(":", 1)[1] if ":" in line else line)
+        if not nums:
+            continue
+        if "unweighted" in low:
+            got_c = nums[-1]
+        elif "weighted" in low and "default" not in low:
+            got_w = nums[-1]
     v = []
     if got_c is None or got_w is None:
         return [("cli.wmc.output", "could not find the two counts in the output", dict(info, stdout=out[-600:]))], nontrivial, info
